@@ -9,7 +9,11 @@
        specification itself, not only the lowered graph, to the implementation. *)
 From Eino Require Import Base.Util Model.Graph Model.Chain Model.ChainSpec Model.GraphCmp.
 
-Definition ccase := gcase.
+(* cc_entry: the public entry point the root was called through: 0 = Invoke, 1 = Stream (output chunks
+   concatenated), 2 = Transform (input cut into one chunk per top-level key, output concatenated).
+   The superstep rule does not depend on the paradigm, so the observation of every entry point is compared
+   with the same model run. *)
+Record ccase := { cc_case : gcase; cc_entry : N }.
 
 (* sub-graph nodes of a chain run the nested engine, exactly as [run] does for a lowered root *)
 Definition spec_sub (fails : list fail_entry) (F : forest) : nat -> path -> value -> unit -> outcome value * unit :=
@@ -18,7 +22,7 @@ Definition spec_sub (fails : list fail_entry) (F : forest) : nat -> path -> valu
                    | None => (Fail [mkerr eUnknownNode] [], s')
                    end.
 
-Definition chain_spec_ok (c : ccase) : bool :=
+Definition chain_spec_ok (c : gcase) : bool :=
   match gc_forest c with
   | GChain sts max :: _ =>
     let F := lower_forest (gc_forest c) in
@@ -34,5 +38,13 @@ Definition chain_spec_ok (c : ccase) : bool :=
   | _ => true
   end.
 
-Definition bad (c : ccase) : bool := gcase_bad c || negb (chain_spec_ok c).
+(* a stream fan-in has no duplicated-key check (finding F-C04 of property C04: the value form fails, the stream
+   form concatenates): runs whose model outcome is that failure are not compared in the stream entries *)
+Definition dup_class (e : err) : bool := N.eqb (e_class e) eDupKey || N.eqb (e_class e) eMergeType.
+Definition stream_incomparable (c : gcase) : bool :=
+  match model_run c with Fail es _ => existsb dup_class es | Done _ _ => false end.
+
+Definition bad (c : ccase) : bool :=
+  if (negb (N.eqb (cc_entry c) 0) && stream_incomparable (cc_case c))%bool then false
+  else gcase_bad (cc_case c) || negb (chain_spec_ok (cc_case c)).
 Definition mismatches (cs : list ccase) : list nat := mismatches_from bad 0 cs.
